@@ -287,3 +287,64 @@ func vReplayRun(t *testing.T, harness func(), target string) {
 		fmt.Println("REPLAY-NOT-REPRODUCED", target)
 	}
 }
+
+// ---- translator validation: run many solver-chosen input vectors natively ----
+
+type vWitness struct {
+	Harness string         `json:"harness"`
+	Inputs  []vReplayInput `json:"inputs"`
+}
+
+func vrReset() {
+	vrVals = map[string]vReplayInput{}
+	vrCount = map[string]int{}
+	vrFailed = nil
+	vrTexts = map[uint64]string{}
+	vrBaseSet = false
+}
+
+// vReplayWitnesses runs every witness of VERIF_WITNESSES through its harness and
+// prints one WITNESS-RESULT line per witness.
+func vReplayWitnesses(t *testing.T, harnesses map[string]func()) {
+	b, err := os.ReadFile(os.Getenv("VERIF_WITNESSES"))
+	if err != nil {
+		t.Fatalf("WITNESS-ERROR: %v", err)
+	}
+	var ws []vWitness
+	if err := json.Unmarshal(b, &ws); err != nil {
+		t.Fatalf("WITNESS-ERROR: %v", err)
+	}
+	for i, w := range ws {
+		h, ok := harnesses[w.Harness]
+		if !ok {
+			continue
+		}
+		vrReset()
+		for _, in := range w.Inputs {
+			vrVals[in.Name] = in
+		}
+		done := make(chan string, 1)
+		go func() {
+			defer func() {
+				if r := recover(); r != nil {
+					if d, ok := r.(vrDiverged); ok {
+						done <- "diverged: " + d.why
+						return
+					}
+					done <- fmt.Sprintf("panic: %v", r)
+					return
+				}
+				done <- "returned"
+			}()
+			h()
+		}()
+		how := ""
+		select {
+		case how = <-done:
+		case <-time.After(10 * time.Second):
+			how = "blocked"
+		}
+		out, _ := json.Marshal(map[string]interface{}{"i": i, "harness": w.Harness, "how": how, "failed": vrFailed})
+		fmt.Println("WITNESS-RESULT", string(out))
+	}
+}
